@@ -552,7 +552,8 @@ class GroupValueWrite(APCI):
         """Serialize to KNX/IP raw data."""
         if isinstance(self.value, DPTBinary):
             return encode_cmd_and_payload(self.CODE, encoded_payload=self.value.value)
-
+        if not self.value.value:
+            raise ConversionError("DPTArray payload must not be empty.")
         return encode_cmd_and_payload(
             self.CODE, appended_payload=bytes(self.value.value)
         )
@@ -591,6 +592,8 @@ class GroupValueResponse(APCI):
         """Serialize to KNX/IP raw data."""
         if isinstance(self.value, DPTBinary):
             return encode_cmd_and_payload(self.CODE, encoded_payload=self.value.value)
+        if not self.value.value:
+            raise ConversionError("DPTArray payload must not be empty.")
         return encode_cmd_and_payload(
             self.CODE, appended_payload=bytes(self.value.value)
         )
@@ -2715,7 +2718,7 @@ class UserMemoryBitWrite(APCI):
         if not 0 <= self.address <= 0xFFFF:
             raise ConversionError("Address out of range.")
         number = len(self.and_data)
-        if not 0 <= number <= 0xFF:
+        if not 1 <= number <= 0xFF:
             raise ConversionError("Number out of range.")
         if len(self.xor_data) != number:
             raise ConversionError("and_data and xor_data must have the same length.")
@@ -3025,6 +3028,8 @@ class FilterTableWrite(APCI):
             raise ConversionError("Number out of range.")
         if not 0 <= self.filter_table_address <= 0xFFFF:
             raise ConversionError("Filter table address out of range.")
+        if not self.data:
+            raise ConversionError("Data must not be empty.")
 
         size = len(self.data)
         payload = struct.pack(
@@ -3216,6 +3221,8 @@ class RouterMemoryWrite(APCI):
             raise ConversionError("Number out of range.")
         if not 0 <= self.memory_address <= 0xFFFF:
             raise ConversionError("Memory address out of range.")
+        if not self.data:
+            raise ConversionError("Data must not be empty.")
 
         size = len(self.data)
         payload = struct.pack(
@@ -3546,7 +3553,7 @@ class MemoryBitWrite(APCI):
         if not 0 <= self.memory_address <= 0xFFFF:
             raise ConversionError("Memory address out of range.")
         number = len(self.and_data)
-        if not 0 <= number <= 0xFF:
+        if not 1 <= number <= 0xFF:
             raise ConversionError("Number out of range.")
         if len(self.xor_data) != number:
             raise ConversionError("and_data and xor_data must have the same length.")
@@ -5250,6 +5257,10 @@ class SecureAPDU(APCI):
 
     def to_knx(self) -> bytearray:
         """Serialize to KNX/IP raw data."""
+        if len(self.secured_data.sequence_number_bytes) != 6:
+            raise ConversionError("Sequence number must be 6 octets.")
+        if len(self.secured_data.message_authentication_code) != 4:
+            raise ConversionError("Message authentication code must be 4 octets.")
         payload = self.scf.to_knx() + self.secured_data.to_knx()
         return encode_cmd_and_payload(self.CODE, appended_payload=payload)
 
